@@ -287,7 +287,11 @@ impl LineBuffer {
         cl: &mut C,
     ) -> Option<bool> {
         let end = self.pos;
-        let start = end - yank_size;
+        // the text before the cursor must be able to be the previous yank
+        let start = end.checked_sub(yank_size)?;
+        if !self.buf.is_char_boundary(start) {
+            return None;
+        }
         self.drain(start..end, Direction::default(), cl);
         self.pos -= yank_size;
         self.yank(text, 1, cl)
